@@ -239,7 +239,7 @@ def strategy(thorough):
 def run_shard(ctx):
     stats = core.Stats()
     thorough = ctx.tier == "thorough"
-    core.hyp_search(strategy(thorough), lambda c: execute(c, ctx.scratch), stats, max_examples=2500 if thorough else 400,
+    core.hyp_search(strategy(thorough), lambda c: execute(c, ctx.scratch), stats, max_examples=25000 if thorough else 400,
                     seed=core.hash64(ctx.seed, ID, ctx.shard), findings=ctx.findings,
                     deadline_s=(ctx.deadline - time.time()) if ctx.deadline else None)
     return stats
